@@ -233,7 +233,12 @@ func (i pyInt) Operator(operator Operator, operand pyObject) pyObject {
 		case GreaterThanOrEqual:
 			return newPyBool(i >= o)
 		case Modulo:
-			return i % o
+			// As in Python, the result takes the sign of the divisor (Go's % takes the sign of the dividend).
+			if m := i % o; m != 0 && (m < 0) != (o < 0) {
+				return m + o
+			} else {
+				return m
+			}
 		case In:
 			panic("bad operator: 'in' int")
 		}
